@@ -1102,3 +1102,44 @@ def main(ctx):
         lspecs["%s.sigmacritinv(0.3,zs)" % ck] = ((lambda: (zbase(),)), (lambda z, c=cobj: c.sigmacritinv(0.3, z)))
         lspecs["%s.sigmacritinv(zl,2)" % ck] = ((lambda: (zbase(),)), (lambda z, c=cobj: c.sigmacritinv(z, 2.0)))
     tiled_elementwise(ctx, "long-arrays", lspecs, marks(ctx), small=lambda l: not l.startswith("open."), small_marks=marks(ctx, small=True))
+
+    # ------------------------------------------------------------ scalar arguments and parameters in other numeric types
+    # redshifts as float32 / numpy and Python integers / 0-d arrays, H0 / omega_m as integers or float32 (values exact in
+    # every type used): bit-identical to the call with Python floats of the same value; a loud TypeError is not a
+    # wrong answer
+    def one_typed(case, rec):
+        meth, zs, form, where = case
+        conv = {"f4": np.float32, "f8": np.float64, "i8": np.int64, "i1": np.int8, "u1": np.uint8, "pyint": int, "0d": lambda v: np.array(v, dtype="f8"),
+                "0d-f4": lambda v: np.array(v, dtype="f4"), "0d-i4": lambda v: np.array(v, dtype="i4")}[form]
+        kw = dict(omega_m=0.25, omega_l=0.5, flat=False, H0=64.0)
+        try:
+            cref = Cosmo(**kw)
+            ref = getattr(cref, meth)(*[float(z) for z in zs])
+            if where == "z":
+                got = getattr(cref, meth)(*[conv(z) for z in zs])
+            else:
+                kw2 = dict(kw)
+                kw2[where] = conv(kw[where])
+                got = getattr(Cosmo(**kw2), meth)(*[float(z) for z in zs])
+        except TypeError:
+            return rec.ok(case, outcome="typed:%s:%s:rejected-by-type" % (where, form), nontrivial=False, calls=2)
+        except Exception as e:
+            return rec.fail(case, "%s%r with %s given as %s raised %s: %s" % (meth, zs, where, form, type(e).__name__, e))
+        # (a 0-d array may be answered with a one-element array: the value counts)
+        g, r = np.asarray(got, dtype="f8").reshape(-1), np.asarray(ref, dtype="f8").reshape(-1)
+        if g.shape != r.shape or not np.array_equal(g, r):
+            return rec.fail(case, "%s%r with %s given as %s = %r, with Python floats of the same value %r" % (meth, zs, where, form, g.tolist(), r.tolist()))
+        rec.ok(case, outcome="typed:%s:%s" % (where, form), nontrivial=True, calls=2)
+
+    tyunits = []
+    for meth, zsets in (("Dc", [(0.5, 2.0), (0.0, 1.0), (2.0, 1.0)]), ("Dm", [(0.5, 2.0)]), ("Da", [(0.0, 1.0), (0.5, 2.0)]), ("Dl", [(0.5, 2.0)]),
+                        ("V", [(0.0, 1.0)]), ("sigmacritinv", [(0.5, 2.0), (2.0, 1.0)]), ("Ez_inverse", [(0.5,), (2.0,)]), ("dV", [(1.0,)]),
+                        ("distmod", [(1.0,), (0.5,)]), ("Ezinv_integral", [(0.0, 2.0)])):
+        for zs in zsets:
+            integral = all(float(z).is_integer() for z in zs)
+            for form in ("f4", "f8", "0d", "0d-f4") + (("i8", "i1", "u1", "pyint", "0d-i4") if integral else ()):
+                tyunits.append((meth, zs, form, "z"))
+            for where, forms in (("H0", ("f4", "i8", "i1", "pyint", "0d")), ("omega_m", ("f4", "0d")), ("omega_l", ("f4", "0d"))):
+                for form in forms:
+                    tyunits.append((meth, zs, form, where))
+    ctx.lattice("typed-scalars", tyunits, one_typed, bounds=dict(types=["f4", "f8", "i8", "i1", "u1", "Python int", "0-d arrays"], where=["z", "H0", "omega_m", "omega_l"]))
